@@ -306,7 +306,7 @@ pub fn read_object_identifier(oid: &[u8], s: &mut dyn Read) -> RdpResult<bool> {
     tmp.read(s)?;
     oid_parsed[3] = tmp;
     tmp.read(s)?;
-    oid_parsed[5] = tmp;
+    oid_parsed[4] = tmp;
     tmp.read(s)?;
     oid_parsed[5] = tmp;
 
